@@ -79,8 +79,8 @@ func init() {
 	register(&Property{
 		ID: "C06",
 		Explanation: "Decides structural necessary conditions of behaviour-preserving minimization: GUARD(entry): minimize consults Grammar.Inputs so that entry states (referenced by index from generated Parse*/lookahead functions) stay apart. GUARD(final): the initial partition consults Tables.FinalStates (reaching `end` stops the parse, which no action signature records). FIELDCOV(minimize): the rule-class key is built from LHS, RuleLen (as popped by the parser), action, node type and flags; every Tables field that holds or is indexed by state numbers is rewritten on the merge path; new Tables fields must be classified; the refinement signature contains own partition, edge symbol and target partition. " +
-			"MUSTPASS(compile-order): minimize runs after conflict resolution and before Optimize. KEYCOPY: the interning containers that partition states by signature store a copy of the signature, never the caller's (reusable) slice. SIGNATURE(lalr-cell): each element of a lookahead state's initial signature is the Lalr cell itself or ruleClass[cell], never a constant standing for a class of cells. LOCKSTEP(rule-copy): the action id that keeps rules with different default-cast behaviour apart is stored into the lalr copy of the rule (the one minimize keys on) whenever it is stored into the grammar copy (the one applyRule is generated from). Not decided: that Moore refinement yields a behaviourally equivalent automaton on all inputs.",
-		Rules: []string{"GUARD(entry)", "GUARD(final)", "FIELDCOV(minimize)", "MUSTPASS(compile-order)", "KEYCOPY", "LOCKSTEP(rule-copy)", "SIGNATURE(lalr-cell)"},
+			"MUSTPASS(compile-order): minimize runs after conflict resolution and before Optimize. KEYCOPY: the interning containers that partition states by signature store a copy of the signature, never the caller's (reusable) slice. AGREE(memo-key): generated code identifies a lookahead by its entry state (kept apart), never by its final state (merged with other final states). SIGNATURE(lalr-cell): each element of a lookahead state's initial signature is the Lalr cell itself or ruleClass[cell], never a constant standing for a class of cells. LOCKSTEP(rule-copy): the action id that keeps rules with different default-cast behaviour apart is stored into the lalr copy of the rule (the one minimize keys on) whenever it is stored into the grammar copy (the one applyRule is generated from). Not decided: that Moore refinement yields a behaviourally equivalent automaton on all inputs.",
+		Rules: []string{"GUARD(entry)", "GUARD(final)", "FIELDCOV(minimize)", "MUSTPASS(compile-order)", "KEYCOPY", "LOCKSTEP(rule-copy)", "SIGNATURE(lalr-cell)", "AGREE(memo-key)"},
 		Run: func(c *Ctx) {
 			ruleENTRYGUARD(c)
 			ruleFINALGUARD(c)
@@ -89,6 +89,7 @@ func init() {
 			ruleKEYCOPY(c)
 			ruleRULECOPY(c)
 			ruleSIGCELL(c)
+			ruleMEMOKEY(c)
 		},
 	})
 }
@@ -345,9 +346,10 @@ func init() {
 	register(&Property{
 		ID: "C08",
 		Explanation: "Decides structural necessary conditions of 'runtime lookahead decisions pick the alternative whose predicates hold': TMPL(negation): in go_parser.go.tmpl every emitted copy of a decision list applies {{if .Predicate.Negated}}!{{end}} in both the cancellable and the plain variant (template tree analysis, so un-instantiated branches are covered). SIBLING(decision-list): in the committed js and test parsers the applyRule and lookaheadRule copies of each lookahead rule have the same tests, polarities and targets. " +
-			"SHIFTWIDTH: the memoization key widens before shifting (distinct predicates at one offset never share a cached answer). ERRFLOW: a lookahead's error is never dropped (C29). Not decided: the planner (newLookaheadRule/pickLookahead), an ordering algorithm over runtime data pinned by lalr.TestLookahead.",
-		Rules: []string{"TMPL(negation)", "SIBLING(decision-list)", "SHIFTWIDTH", "ERRFLOW"},
+			"SHIFTWIDTH: the memoization key widens before shifting (distinct predicates at one offset never share a cached answer). AGREE(memo-key): the key identifies the lookahead nonterminal by its entry state, which minimize never merges, not by its final state, which it does. ERRFLOW: a lookahead's error is never dropped (C29). Not decided: the planner (newLookaheadRule/pickLookahead), an ordering algorithm over runtime data pinned by lalr.TestLookahead.",
+		Rules: []string{"TMPL(negation)", "SIBLING(decision-list)", "SHIFTWIDTH", "AGREE(memo-key)", "ERRFLOW"},
 		Run: func(c *Ctx) {
+			ruleMEMOKEY(c)
 			ruleTMPLNEG(c)
 			ruleDECISIONSIBLING(c)
 			ruleSHIFTWIDTH(c)
